@@ -28,8 +28,9 @@ inline std::string gen_safe_value(Src &s, char d, char c, bool allow_multiline =
   Alphabet a0 = make_alphabet(forb_val);
   Alphabet ac = make_alphabet(forb_val + std::string(1, d));
   std::string v;
-  size_t k = s.weighted({55, 15, allow_multiline ? 30 : 0});
+  size_t k = s.weighted({55, 15, allow_multiline ? 30 : 0, 3});
   if (k == 1) return "";
+  if (k == 3) return "_none_";  // ordinary text for every getter (it happens to be the library's internal placeholder)
   int n = 1 + (int)s.below(12);
   v = gen_text(s, a0, n, "\"");
   if (k == 2) {
